@@ -162,7 +162,7 @@ def run_one(ch):
                       ";token= sekrit "][tokv]
             mime = ch.pick("mime", ["text/plain", "image/png", "text/gemini", "application/x-evil"])
             line = f"titan://{HOST}{path};size={size};mime={mime}{tokstr}"
-            fkind = ch.choose("fault", 7, [8, 3, 1, 1, 1, 1, 1])
+            fkind = ch.choose("fault", 8, [8, 3, 1, 1, 1, 1, 1, 1])
             plan = []
             fdesc = None
             if fkind == 1:
@@ -179,6 +179,10 @@ def run_one(ch):
             elif fkind == 4:
                 plan = [{"op": "replace", "kind": ch.pick("rerr", ["EACCES", "EIO", "ENOSPC"])}]
                 fdesc = "replace-" + plan[0]["kind"]
+            elif fkind == 7:
+                # a sync of the file or of its directory fails (some network / FUSE file systems)
+                plan = [{"op": "fsync", "kind": ch.pick("fserr", ["EIO", "EACCES"])}]
+                fdesc = "fsync-" + plan[0]["kind"]
             elif fkind == 6 and size > 0:
                 # the error only shows when the buffered tail is flushed (at close)
                 k = ch.pick("flk", [0, size // 2])
